@@ -5,6 +5,7 @@ not make the analysis give up.  Variants are source overlays: nothing is
 written to /repo and nothing is executed."""
 import ast
 import concurrent.futures
+import json
 import os
 import random
 
@@ -503,6 +504,68 @@ class HoistAttr(_TreeVariant):
     lp.body.insert(0, ast.Assign(targets=[ast.Name(id=local, ctx=ast.Store())], value=ast.Attribute(value=ast.Name(id=v, ctx=ast.Load()), attr=f, ctx=ast.Load()), lineno=lp.lineno))
 
 
+class LoopToComprehension(_TreeVariant):
+  """`ys = []` directly followed by `for x in xs: [if c:] ys.append(e)`  ->  `ys = [e for x in xs if c]`."""
+  label = 'accumulating loop turned into a comprehension'
+
+  @classmethod
+  def candidates(cls, fn):
+    out = []
+    for owner, field, blk in _blocks(fn):
+      for i in range(len(blk) - 1):
+        a, lp = blk[i], blk[i + 1]
+        if not (isinstance(a, ast.Assign) and len(a.targets) == 1 and isinstance(a.targets[0], ast.Name) and isinstance(a.value, ast.List) and not a.value.elts):
+          continue
+        if not (isinstance(lp, ast.For) and not lp.orelse and len(lp.body) == 1):
+          continue
+        inner, cond = lp.body[0], None
+        if isinstance(inner, ast.If) and not inner.orelse and len(inner.body) == 1:
+          inner, cond = inner.body[0], inner.test
+        ys = a.targets[0].id
+        if isinstance(inner, ast.Expr) and isinstance(inner.value, ast.Call) and isinstance(inner.value.func, ast.Attribute) and inner.value.func.attr == 'append' and \
+           isinstance(inner.value.func.value, ast.Name) and inner.value.func.value.id == ys and len(inner.value.args) == 1 and \
+           not any(isinstance(n, ast.Name) and n.id == ys for n in ast.walk(inner.value.args[0])) and \
+           not (cond is not None and any(isinstance(n, ast.Name) and n.id == ys for n in ast.walk(cond))):
+          out.append((blk, i, ys, lp, inner.value.args[0], cond))
+    return out
+
+  def transform(self, cand):
+    blk, i, ys, lp, elt, cond = cand
+    comp = ast.ListComp(elt=elt, generators=[ast.comprehension(target=lp.target, iter=lp.iter, ifs=[cond] if cond is not None else [], is_async=0)])
+    blk[i:i + 2] = [ast.Assign(targets=[ast.Name(id=ys, ctx=ast.Store())], value=comp, lineno=blk[i].lineno)]
+
+
+class ProtoKwargs(_TreeVariant):
+  """`m = X.add()` followed by consecutive `m.f = v` stores  ->  `m = X.add(f=v, ...)`  (protobuf scalar fields; the values do
+  not mention m)."""
+  label = 'protobuf field stores folded into add(field=...)'
+
+  @classmethod
+  def candidates(cls, fn):
+    out = []
+    for owner, field, blk in _blocks(fn):
+      for i, a in enumerate(blk):
+        if not (isinstance(a, ast.Assign) and len(a.targets) == 1 and isinstance(a.targets[0], ast.Name) and isinstance(a.value, ast.Call) and
+                isinstance(a.value.func, ast.Attribute) and a.value.func.attr == 'add' and not a.value.args and not a.value.keywords):
+          continue
+        m = a.targets[0].id
+        j = i + 1
+        fields = []
+        while j < len(blk) and isinstance(blk[j], ast.Assign) and len(blk[j].targets) == 1 and isinstance(blk[j].targets[0], ast.Attribute) and \
+            isinstance(blk[j].targets[0].value, ast.Name) and blk[j].targets[0].value.id == m and \
+            not any(isinstance(n, ast.Name) and n.id == m for n in ast.walk(blk[j].value)) and blk[j].targets[0].attr not in [f for f, _v in fields]:
+          fields.append((blk[j].targets[0].attr, blk[j].value))
+          j += 1
+        if fields:
+          out.append((blk, i, j, fields))
+    return out
+
+  def transform(self, cand):
+    blk, i, j, fields = cand
+    blk[i].value.keywords = [ast.keyword(arg=f, value=v) for f, v in fields]
+    del blk[i + 1:j]
+
+
 class InlineConstant(_TreeVariant):
   """a module-level numeric constant (UPPER_CASE, bound once to a literal number in the same file) used in the function is
   replaced by its literal value."""
@@ -550,7 +613,11 @@ class InlineConstant(_TreeVariant):
     return len(set(n.id for n in ast.walk(fn) if isinstance(n, ast.Name) and isinstance(n.ctx, ast.Load) and n.id in consts))
 
 
-def generated_variants(funcs, repo=None, per_function=2):
+def generated_variants(funcs, repo=None, per_function=None):
+  """per_function candidates of each kind per function (first, last, then evenly spread); VERIF_GEN_PER_FUNCTION widens the
+  sample for a one-off sweep."""
+  if per_function is None:
+    per_function = int(os.environ.get('VERIF_GEN_PER_FUNCTION', '2'))
   out = []
   repo = repo or REPO
   cache = {}
@@ -564,11 +631,15 @@ def generated_variants(funcs, repo=None, per_function=2):
     fn = _find_func(tree, qualname) if tree is not None else None
     if fn is None:
       continue
-    for cls in (InvertIf, EarlyContinue, IfToTernary, AugToPlain, SplitChain, HoistAttr):
+    for cls in (InvertIf, EarlyContinue, IfToTernary, AugToPlain, SplitChain, HoistAttr, LoopToComprehension, ProtoKwargs):
       n = len(cls.candidates(fn))
-      for k in sorted(set([0, n - 1]))[:per_function]:
-        if 0 <= k < n:
-          out.append(cls(file, qualname, k))
+      ks = [0, n - 1] + [round(j * (n - 1) / max(per_function - 1, 1)) for j in range(per_function)]
+      seen_k = []
+      for k in ks:
+        if 0 <= k < n and k not in seen_k:
+          seen_k.append(k)
+      for k in seen_k[:per_function]:
+        out.append(cls(file, qualname, k))
     for k in range(min(InlineConstant.count(tree, fn), per_function)):
       out.append(InlineConstant(file, qualname, k))
   return out
@@ -684,7 +755,23 @@ def kept_patches(prop):
 
 def all_variants(mod):
   muts = list(getattr(mod, 'MUTANTS', []))
-  funcs = getattr(mod, 'RENAME_FUNCS', [])
+  funcs = list(getattr(mod, 'RENAME_FUNCS', []))
+  # plus every function that owns a rule instance on the unchanged tree (published by run_selftest for its workers)
+  try:
+    trees = {}
+    for f, q in json.loads(os.environ.get('VERIF_SELFTEST_FUNCS', '[]')):
+      if (f, q) in funcs:
+        continue
+      if f not in trees:
+        try:
+          trees[f] = ast.parse(open(os.path.join(REPO, f), encoding='utf-8').read())
+        except (OSError, SyntaxError):
+          trees[f] = None
+      node = _find_func(trees[f], q) if trees[f] is not None else None
+      if isinstance(node, (ast.FunctionDef, ast.AsyncFunctionDef)):      # functions only: renaming a class attribute is not a local change
+        funcs.append((f, q))
+  except ValueError:
+    pass
   muts.extend(local_renames(funcs))
   muts.extend(FlipComparisons(f, q) for (f, q) in funcs)
   muts.extend(temp_variants(funcs))
@@ -712,7 +799,10 @@ def _run_one(args):
   return (idx, 'ran', keys, None)
 
 
-def run_selftest(prop, mod, baseline_keys, seed=0, jobs=None):
+def run_selftest(prop, mod, baseline_keys, seed=0, jobs=None, owners=None):
+  # generated equivalent rewrites are applied to every function a rule instance is attached to, not only to the listed ones
+  own = sorted(set((f, q) for f, q in (owners or []) if q and q != '<module>' and '<locals>' not in q))
+  os.environ['VERIF_SELFTEST_FUNCS'] = json.dumps(own)
   muts = all_variants(mod)
   order = list(range(len(muts)))
   random.Random(seed).shuffle(order)
